@@ -26,12 +26,14 @@ func (v *Vue) evalAttributes(ctx VueContext, n *html.Node) (map[string]any, erro
 	// First pass: collect static attributes and evaluate bound ones
 	for _, a := range n.Attr {
 		key := a.Key
-		val := strings.TrimSpace(a.Val)
+		// Static values pass through as written; only expressions (and, as before, the
+		// evaluated v-html / v-text content) are trimmed.
+		val := a.Val
 
 		// Internal attributes carry already evaluated v-html / v-text content: data, not
 		// template source. Copy them through without interpolating them again.
 		if key == "data-v-html-content" || key == "data-v-text-content" {
-			newAttrs = append(newAttrs, html.Attribute{Key: key, Val: val})
+			newAttrs = append(newAttrs, html.Attribute{Key: key, Val: strings.TrimSpace(val)})
 			continue
 		}
 
@@ -50,7 +52,7 @@ func (v *Vue) evalAttributes(ctx VueContext, n *html.Node) (map[string]any, erro
 
 		switch {
 		case boundName != key:
-			boundValue, err := v.evalBoundAttribute(ctx, boundName, val)
+			boundValue, err := v.evalBoundAttribute(ctx, boundName, strings.TrimSpace(val))
 			if err != nil {
 				return nil, fmt.Errorf("error evaluating attr %s: %w", boundName, err)
 			}
